@@ -145,6 +145,24 @@ func (o *Oracle) updateFields(src engine.Struct, S types.Type, pre engine.Value,
 		zero := o.R.Name(o.IsZero(sv, st))
 		zeroGo := o.R.Name(o.isZeroGo(sv, st))
 		cat := zeroCategory(st)
+		// a nested struct of unnamed type on both sides is part of the method's own struct: it is updated in
+		// place, member by member, every member under the same categories (below the struct-level guard)
+		if _, su := st.(*types.Struct); su {
+			if _, tu := tf.Type().(*types.Struct); tu {
+				if svs, ok1 := sv.(engine.Struct); ok1 {
+					if pst, ok2 := post[i].(engine.Struct); ok2 {
+						rec := o.collect(func() { o.updateFields(svs, st, preAt(i), pst, tf.Type(), u, false, fpath) })
+						if u.selected(cat) {
+							o.leaf(fpath, engine.Implies(zero, unchanged()), "zero-valued "+cat+" source field overwrote the target although update:ignoreZeroValueField:"+cat+" is set")
+							o.leaf(fpath, engine.Implies(engine.Not(zeroGo), rec), "nested struct with non-zero source: a member is neither its conversion nor rightly left alone")
+						} else {
+							o.leaf(fpath, rec, "nested struct: a member is neither its conversion nor rightly left alone")
+						}
+						continue
+					}
+				}
+			}
+		}
 		conv := o.collect(func() { o.Match(sv, st, post[i], tf.Type(), fpath) })
 		// non-zero source: replaced by its conversion
 		o.leaf(fpath, engine.Implies(engine.Not(zeroGo), conv), "mapped field with non-zero source is not its conversion")
